@@ -299,6 +299,8 @@ def c08(run):
     run.assumptions += ["replies are decoded and unmasked by the harness' own codec; WsControl!ControlReply is the oracle, using WsCheck!Broken with the peer's state for 'the peer's own header check accepts it'",
                         "close codes 1012-1014 and >= 5000 are open: echo or refusal both accepted"]
     records_check(run, b, "c08h", "C08Records")
+    run.assumptions += [READER_NOTE + " (control path of ReadData: the replies found on the destination are judged by WsControl!ControlReply inside the reader monitor)"]
+    traces_check(run, b, "c08r", "TraceWsReader")
     return run.finish("model_checking")
 
 
